@@ -116,6 +116,20 @@ def reverify(sid):
         env = {"PYTHONPATH": wt, "PYTHONDONTWRITEBYTECODE": "1"}
         rc0, o0 = sh([PY, os.path.join(sdir, "demo.py")], cwd=wt, env=env)
         rca, oa = sh(["git", "apply", os.path.join(sdir, "patch.diff")], cwd=wt)
+        rebased = False
+        if rca != 0:
+            # the code around the change has moved (repairs in /repo): try a 3-way application; if it is clean, the
+            # stored patch is refreshed from its result, otherwise the patch needs a rebase by hand
+            sh("git checkout HEAD -- . && git reset -q", cwd=wt)
+            rc3, o3 = sh(["git", "apply", "-3", os.path.join(sdir, "patch.diff")], cwd=wt)
+            unmerged = sh("git diff --name-only --diff-filter=U", cwd=wt)[1].strip()
+            if rc3 == 0 and not unmerged:
+                sh("git reset -q", cwd=wt)
+                newpatch = sh("git diff HEAD -- spec_classes", cwd=wt)[1]
+                if newpatch.strip():
+                    rca, oa, rebased = 0, o3, True
+            else:
+                sh("git checkout HEAD -- . ; git reset -q", cwd=wt)
         rct, ot = sh([PY, "-m", "pytest", "-q", "-p", "no:cacheprovider", "-x"], cwd=wt, env=env)
         rc1, o1 = sh([PY, os.path.join(sdir, "demo.py")], cwd=wt, env=env)
         tests_line = ot.strip().splitlines()[-1] if ot.strip() else ""
@@ -123,6 +137,9 @@ def reverify(sid):
         print(f"[{sid}] on HEAD {sh('git -C /repo log --format=%h -1')[1].strip()}: demo clean rc={rc0}, apply rc={rca}, tests {tests_line!r}, demo with mutant rc={rc1} -> {'VALID' if ok else 'INVALID'}")
         if not ok:
             print(oa[-300:], o0[-300:], o1[-300:])
+        elif rebased:
+            open(os.path.join(sdir, "patch.diff"), "w").write(newpatch)
+            print(f"[{sid}] patch refreshed from a clean 3-way application")
         m = json.load(open(os.path.join(sdir, "meta.json")))
         m.setdefault("reverified", []).append({"head": sh("git -C /repo log --format=%h -1")[1].strip(), "valid": ok, "tests": tests_line, "demo_clean_rc": rc0, "demo_mutant_rc": rc1})
         json.dump(m, open(os.path.join(sdir, "meta.json"), "w"), indent=1)
